@@ -4,7 +4,7 @@ class P(vlib.Prop):
     id = "C08"
     # a changed function in these files makes the quick tier run the stages at thorough size (about 4.5 min)
     watch = ("pkg/apk/apk/shameful_global_caches.go", "pkg/apk/apk/repo.go", "pkg/apk/apk/index.go")
-    rule = ("history stage: hand-picked histories first (every known-finding and fixed-finding replay - C08-F1/F3 install_if order and chain membership, fixed by c03e0c0 -; install_if chains, name=version keys, several packages per key; the scenarios the per-call clone, the copy of the disqualification map "
+    rule = ("history stage: hand-picked histories first (every known-finding and fixed-finding replay - C08-F1/F3 install_if order and chain membership, fixed by c03e0c0; C08-F2 cache key without the grouping, fixed by 3541d7b -; install_if chains, name=version keys, several packages per key; the scenarios the per-call clone, the copy of the disqualification map "
             "and the explicit tie-breaks exist for; positive controls), then generated histories of 3-6 ResolveWorld-style calls "
             "(NewPkgResolver + GetPackagesWithDependencies through the public API) over 2-4 shared index objects: the same index list under different worlds, "
             "the same world over different index lists and orders, nil / single- / multi-architecture groupings, universes with install_if (2 in 5: several triggers, chains through appended packages and through name=version, two versions under one key, entries on provided names) and "
@@ -33,12 +33,14 @@ class P(vlib.Prop):
         "the resolver core is a Section variable with the stated frame hypothesis (writes only selected / the disqualification map it was handed; its result is a function of what is reachable from its handles) until it is discharged for Model/Resolver.v",
         "index identity is object identity (Go interface values holding pointers), modelled as positions in the universe",
         "index cache: the bytes of an index file and their parse are abstract (any parser), a file's modification time is what os.Stat reports; c08_index_cache_fresh assumes every rewrite moves it strictly forward (C08-F5 is what happens otherwise)",
-        "slices.SortFunc on fewer than 12 elements is a stable insertion sort (Go 1.23 pdqsort), so equal-named indexes keep the map-iteration order of the concatenation in the disqualification key",
+        "slices.SortFunc on fewer than 12 elements is a stable insertion sort (Go 1.23 pdqsort), so equal-named indexes keep the map-iteration order of the concatenation in the trie path of the disqualification cache (a miss more or less; the answers do not depend on it since fix 3541d7b)",
+        "the disqualification cache's two-level lookup (trie path, then the entry with an equal grouping) is modelled as the one-level cache of Model/Caches.v keyed by the pair (CachesGrouped.grouping_key); equal keys imply the same Go map (proved), the converse is tested",
     )
     level_text = ("Theorems about an executable model of the cache layer over an explicit store (references for selected / nameMap / installIfMap and their slices / "
                   "disqualification maps; the two tries; clone allocates exactly what PkgResolver.Clone and maps.Clone copy): c08_frame, c08_history_independent for every "
-                  "history and call (under the stated grouping hypothesis), its failure with the clone removed, c08_memo_transparent, the refutation c08_dq_cache_key "
-                  "(C08-F2), and - since fix c03e0c0 turned the install_if loop into a walk over the dependency list by index - c08_order_deterministic in full (one result, members and order, "
+                  "history and call - for any key function of the disqualification cache under the grouping hypothesis, and WITHOUT proviso for the key the code uses since fix 3541d7b (trie path + grouping: c08_grouping_key_compatible, "
+                  "c08_history_independent_every_history, c08_dq_handed_own_grouping: a request is handed the difference of its own grouping after every history; formerly refuted, finding C08-F2; the former key is refuted in "
+                  "c08_dq_cache_concatenation_key_refuted) -, its failure with the clone removed, c08_memo_transparent, and - since fix c03e0c0 turned the install_if loop into a walk over the dependency list by index - c08_order_deterministic in full (one result, members and order, "
                   "for every universe, world and disqualification set; formerly refuted, findings C08-F1/F3) with c08_install_if_chain_complete (a package triggered by packages the loop itself "
                   "appended is appended too). The verified validator c08_validator_decides is run on the outcomes of the real "
                   "code after histories, on fresh caches and in fresh processes; the model of the disqualification trie is compared with the entries the real trie holds before and after every call. "
